@@ -298,6 +298,53 @@ func runC19(r *Run) {
 	}
 	rr.Done()
 	inv.Done()
+	// ---- the codec is total: nothing in Value / ReadValue / NewType (and what they call) can panic
+	{
+		tr := r.Rule("C19.total", "MessageType.Value, ReadValue and NewType, with every module function they call, contain no explicit panic, unchecked type assertion or unproved index/slice/division in any build configuration: encoding and decoding are defined on the whole 4096 x 4 domain", 3)
+		var roots []*ssa.Function
+		roots = append(roots, valueFn, readFn)
+		if nt := p.Fn("NewType"); nt != nil {
+			roots = append(roots, nt)
+		}
+		seen := map[*ssa.Function]bool{}
+		var order []*ssa.Function
+		var visit func(f *ssa.Function)
+		visit = func(f *ssa.Function) {
+			if f == nil || seen[f] || f.Blocks == nil || !p.isLibFn(f) {
+				return
+			}
+			seen[f] = true
+			order = append(order, f)
+			for _, cs := range p.CG().Sites[f] {
+				for _, g := range cs.Callees {
+					visit(g)
+				}
+			}
+			for _, a := range f.AnonFuncs {
+				visit(a)
+			}
+		}
+		for _, f := range roots {
+			visit(f)
+		}
+		for _, f := range order {
+			r.Analysed(f)
+			bad := 0
+			for _, ps := range panicConstructs(f) {
+				bad++
+				tr.Violation(f, instrPos(ps.In), ps.Desc, "the message type codec can panic here: for the methods/classes that reach this statement encoding (or decoding) is not defined, so the two are not inverse on the whole domain")
+			}
+			pr := newProver(p, f)
+			for _, ob := range boundsObligations(pr, f) {
+				if ok, _, failed, _ := dischargeObligation(pr, ob); !ok {
+					bad++
+					tr.Violation(f, instrPos(ob.In), ob.Desc, "cannot prove "+failed+": the message type codec may panic for some method/class")
+				}
+			}
+			tr.Instance(fnName(f), true, map[string]interface{}{"fn": fnName(f), "panic_sites": bad})
+		}
+		tr.Done()
+	}
 	// the type value reaches bytes [0:2) of the header unchanged (shared with C03)
 	r.Borrow("C03", map[string]string{"C03.header": "C19.header"})
 }
